@@ -62,10 +62,14 @@ ChainOpsOf(k) == IF k = 3 THEN {c \in ChainOps : c.op = "copy"} ELSE ChainOps   
 Chains == UNION {[1..k -> ChainOpsOf(k)] : k \in 1..MaxChain}
 ChainPlans == {[ep |-> "ApplyPatches", template |-> "alias_chain", pos |-> 0, repl |-> "unchanged", chain |-> c] : c \in Chains}
 
+\* a json patch of pos copy operations that alternate between two members, each copying the one into the other: a text that
+\* fits the default size limit of a delta (1 700 bytes) and whose result grows by the golden ratio per operation
+GrowthPlans == {[ep |-> "ApplyPatches", template |-> "copy_growth", pos |-> n, repl |-> "unchanged", chain |-> <<>>] : n \in {12, 34}}
+
 Plans == UNION {{[ep |-> e, template |-> t, pos |-> p, repl |-> r, chain |-> <<>>] : t \in Templates[e], p \in 0..MaxPos, r \in Replacements} :
                   e \in EntryPoints}
-           \cup ChainPlans
-ValidPlan(pl) == pl.template = "alias_chain" \/ pl.template \in Templates[pl.ep]
+           \cup ChainPlans \cup GrowthPlans
+ValidPlan(pl) == pl.template \in {"alias_chain", "copy_growth"} \/ pl.template \in Templates[pl.ep]
 
 NoPlan == [ep |-> "none", template |-> "none", pos |-> 0, repl |-> "none", chain |-> <<>>]
 
